@@ -410,9 +410,6 @@ package main
 //@ func parseTypeDef
 //@   trusted
 //@   panics may
-//@ func parsePackageInfo
-//@   trusted
-//@   panics may
 //@ func psForErrMsg
 //@   trusted
 //@   panics never
@@ -539,7 +536,8 @@ package main
 //@ func psConsume
 //@   trusted
 //@   panics may
-//@   note abstract: checks the current token type and advances
+//@   ensures frame: result.scope == ps.scope && result.offsideCol == ps.offsideCol && result.tvc == ps.tvc && result.tdctx == ps.tdctx
+//@   note abstract: checks the current token type and advances the tokenizer; every other component is kept
 
 //@ func lookupBinOp
 //@   trusted
@@ -1040,3 +1038,52 @@ package main
 //@   at after call varRefToGo#0: N = ret
 //@   at after call varRefToGo#0: TA = c_M
 //@   at after call slice.Map#1: A = ret
+
+// C07 / C03: the declarations of a package_info block are parsed in a CHILD scope of the enclosing one
+// (so that unqualified external names do not leak into, or overwrite, the enclosing scope); afterwards
+// the qualified names are registered in the enclosing scope (piRegAll).
+//@ func NewScope
+//@   trusted
+//@   panics never
+//@   ensures child: scparent(result) == parent && result != parent
+//@   note abstract: allocates a new scope whose parent is the argument (pointer, hand-written NewScopeImpl)
+
+//@ func SCParent
+//@   trusted
+//@   panics never
+//@   returns scparent(sc)
+
+//@ func psNext
+//@   trusted
+//@   panics may
+//@   ensures frame: result.scope == ps.scope && result.offsideCol == ps.offsideCol && result.tvc == ps.tvc && result.tdctx == ps.tdctx
+//@   note abstract: advances the tokenizer (tkzNext, verified under C06 over byte strings); every other component is kept
+
+//@ func psIdentNameNx
+//@   trusted
+//@   panics may
+//@   ensures frame: result.E0.scope == ps.scope && result.E0.offsideCol == ps.offsideCol && result.E0.tvc == ps.tvc && result.E0.tdctx == ps.tdctx
+//@   note abstract: the current identifier, then advance
+
+//@ func parseExtDefs
+//@   trusted
+//@   panics may
+//@   ensures scope-kept: result.scope == ps.scope
+//@   note abstract: the declarations of the block (they register into the scope they are handed); the parser returns with the scope it was given
+
+//@ func piRegAll
+//@   trusted
+//@   panics may
+//@   note abstract here (its enumeration is covered by the C05 scan)
+
+//@ func parsePackageInfo
+//@   props C07 C03
+//@   modifies maps
+//@   ghost SC Scope              -- the scope in which the block's declarations are parsed
+//@   ghost RS Scope              -- the scope in which the qualified names are registered afterwards
+//@   panics may
+//@   ensures block-scope-is-a-child: scparent(SC) == ps.scope && SC != ps.scope
+//@   ensures registered-in-enclosing-scope: RS == ps.scope
+//@   ensures scope-restored: result.E0.scope == ps.scope
+//@   at before call parseExtDefs#0: SC = ps4.scope
+//@   at before call piRegAll#0: RS = ps5.scope
